@@ -95,6 +95,15 @@ def run(tier, seed):
                 k = offs[i] + rng.choice([1, 63, 64, 65, 64 + len(pkts[i][1]) - 1, 64 + len(pkts[i][1])])
                 k = max(8, min(k, len(data)))
                 cases.append((scangen.hexline(src, flt, rng.randrange(2), data[:k]), pkts, flt, None, k, src))
+    # a stream longer than the reader's 50 KiB buffer, cut exactly at packet boundaries on both sides of that mark
+    pkts, ids = scangen.rand_stream(rng, 420)
+    data = scangen.serialize(pkts)
+    offs = streams.offsets(pkts) + [len(data)]
+    near = [o for o in offs if 49000 <= o <= 54000]
+    for k in (near if deep else near[::2]) + [offs[-1]]:
+        for src, skip in (("file", 1), ("file", 0), ("pipe", 1)):
+            cases.append((scangen.hexline(src, "-" if rng.random() < 0.6 else scangen.pick_filter(rng, ids), skip, data[:k]), pkts, None, skip, k, src))
+    cases = [(c[0], c[1], c[0].split()[1], c[3], c[4], c[5]) for c in cases]
     lines = [c[0] for c in cases]
     impl = core.run_lines(core.HARNESS_BIN, "scan", lines, shards=core.NCPU)
     model = core.run_lines(core.FPMODEL, "scan", lines, shards=core.NCPU)
@@ -140,8 +149,8 @@ def run(tier, seed):
         data = bytearray(streams.serialize(pkts))
         offs = streams.offsets(pkts)
         # a few faults so that the intact prefix has findings of its own
-        for _ in range(rng.randrange(0, 3)):
-            i = rng.randrange(len(pkts))
+        for _ in range(rng.randrange(1, 4)):
+            i = rng.randrange(max(1, len(pkts) // 2))
             if len(pkts[i][1]) >= 10:
                 data[offs[i] + 64 + 9] = 0x01        # first word's id
             data[offs[rng.randrange(len(pkts))] + 4] = 1 if rng.random() < 0.3 else 0   # priority bit
@@ -215,6 +224,40 @@ def run(tier, seed):
                                                 what="`view rdh` rows of the complete packets differ from the untruncated run"))
         if len(samples2) < 3 and kind == "payload" and j["mode"][0] == "check":
             samples2.append(dict(desc, rc=rc, findings=findings(se)[0][:5]))
+    # ------------------------------------------------------------ search after a broken correspondence
+    # model and code disagree on some truncated inputs but no failing input has been seen yet: replay exactly those inputs
+    # (plus one RDH-level fault so that the run has findings of its own) through the binary in the check modes
+    if chk.disagreements and not chk.spec_violations:
+        sj = []
+        for dis in [x for x in chk.disagreements if x.get("stream") == "scan-cut"][:120]:
+            toks = dis["case"].split()
+            if len(toks) < 4 or toks[3].endswith(")"):
+                continue
+            try:
+                raw = bytearray(bytes.fromhex(toks[3]))
+            except ValueError:
+                continue
+            if len(raw) >= 64:
+                raw[39] = 1          # RDH2 reserved byte of the first header: an [E10] finding at offset 0
+            for mode in (["check", "sanity"], ["check", "all", "its"]):
+                sj.append({"data": bytes(raw), "mode": mode, "inp": toks[0]})
+
+        def swork(j):
+            if j["inp"] == "file":
+                path = os.path.join(tmp, "s_%d.raw" % id(j))
+                open(path, "wb").write(j["data"])
+                r = core.run_cli([path] + j["mode"], timeout=30)
+                os.remove(path)
+            else:
+                r = core.run_cli(j["mode"], stdin_bytes=j["data"], timeout=30)
+            return r
+        for j, (rc, so, se, dt) in zip(sj, core.par_map(swork, sj)):
+            se = se.decode("utf8", "replace")
+            if not isinstance(rc, int) or rc not in (0, 1) or "panicked at" in se:
+                chk.spec_violations.append({"stream": "search-after-disagreement", "mode": " ".join(j["mode"]), "input": j["inp"],
+                                            "input_hex": j["data"].hex().upper()[:1600], "rc": str(rc), "stderr_tail": ANSI.sub("", se)[-500:],
+                                            "what": "truncated input does not end normally (panic / signal / unexpected status)"})
+        chk.cov["search_after_disagreement_runs"] = len(sj)
     shutil.rmtree(tmp, ignore_errors=True)
     chk.add_stream("cli-cut", len(jobs), d2, samples2, distribution={"streams": ncli, "runs": len(jobs)})
     chk.cov["rule"] = ("scan-cut: short well-framed streams, EVERY cut position from byte 8 (exhaustive; step 3 above 400 bytes in the quick tier), "
